@@ -430,6 +430,67 @@ pub fn gen_map(rng: &mut Rng, sh: &Shape) -> MapText {
     m
 }
 
+/// osu! maps shaped to drive the converters through their rarer branches: dense streams, sliders
+/// with many repeats and long spans, and the next object placed at a chosen small distance after
+/// the *end* of the previous one (the converters branch on those gaps and on the hit sounds).
+pub fn gen_convert_stress(rng: &mut Rng, max_n: usize) -> MapText {
+    let mut m = MapText::default();
+    let sm = *rng.pick(&[1.0, 1.4, 1.8, 0.8, 2.4]);
+    let beat = *rng.pick(&[500.0, 400.0, 300.0, 600.0, 250.0]);
+    m.pre.push("osu file format v14".into());
+    m.pre.push("[General]".into());
+    m.pre.push(format!("StackLeniency: {}", r1(rng.frange(0.0, 1.0))));
+    m.pre.push("Mode: 0".into());
+    m.pre.push("[Difficulty]".into());
+    m.pre.push(format!("HPDrainRate:{}", r1(rng.frange(0.0, 10.0))));
+    m.pre.push(format!("CircleSize:{}", r1(rng.frange(2.0, 7.0))));
+    m.pre.push(format!("OverallDifficulty:{}", r1(rng.frange(0.0, 10.0))));
+    m.pre.push(format!("ApproachRate:{}", r1(rng.frange(0.0, 10.0))));
+    m.pre.push(format!("SliderMultiplier:{sm}"));
+    m.pre.push(format!("SliderTickRate:{}", *rng.pick(&[1.0, 2.0, 4.0])));
+    m.pre.push("[Events]".into());
+    m.timing.push(format!("0,{beat},4,2,0,100,1,0"));
+    let n = 4 + rng.usize(max_n.max(5) - 4);
+    let velocity = 100.0 * sm / beat; // px per ms at slider velocity 1
+    let mut t = 200.0;
+    // a stream first: the map counts as dense
+    let stream = rng.usize(n / 2 + 1);
+    for i in 0..n {
+        let x = rng.range(0, 512);
+        let y = rng.range(0, 384);
+        let sound = *rng.pick(&[0u32, 0, 2, 8, 4, 12, 6, 10, 14]);
+        if i < stream {
+            m.objects.push(format!("{x},{y},{t},1,{sound},0:0:0:0:"));
+            t += *rng.pick(&[50.0, 60.0, 75.0, 90.0, 100.0, 125.0]);
+            continue;
+        }
+        let gap_after_end = *rng.pick(&[40.0, 70.0, 90.0, 100.0, 110.0, 120.0, 130.0, 140.0, 160.0, 250.0, 500.0]);
+        match rng.weighted(&[45, 45, 10]) {
+            0 => {
+                m.objects.push(format!("{x},{y},{t},{},{sound},0:0:0:0:", if rng.chance(0.2) { 5 } else { 1 }));
+                t += gap_after_end;
+            }
+            1 => {
+                let repeats = *rng.pick(&[1u32, 1, 2, 3, 4, 5, 6, 8]);
+                let px = *rng.pick(&[40.0, 60.0, 84.0, 100.0, 140.0, 200.0, 280.0]);
+                let ex = (x + rng.range(-120, 120)).clamp(0, 512);
+                let ey = (y + rng.range(-90, 90)).clamp(0, 384);
+                let edge: Vec<String> = (0..=repeats).map(|_| rng.pick(&[0u32, 2, 8, 4]).to_string()).collect();
+                m.objects
+                    .push(format!("{x},{y},{t},2,{sound},L|{ex}:{ey},{repeats},{px},{}", edge.join("|")));
+                t += px * f64::from(repeats) / velocity + gap_after_end;
+            }
+            _ => {
+                let dur = *rng.pick(&[100.0, 400.0, 1000.0, 2500.0]);
+                m.objects.push(format!("256,192,{t},12,{sound},{},0:0:0:0:", t + dur));
+                t += dur + gap_after_end;
+            }
+        }
+        t = (t * 2.0).round() / 2.0;
+    }
+    m
+}
+
 /// Moves every object from index `from` on (start and end times) by `delta` ms: a long break.
 pub fn shift_times(m: &mut MapText, from: usize, delta: f64) {
     for l in m.objects.iter_mut().skip(from) {
